@@ -56,7 +56,14 @@ func ruleBuilderPurity(c *eng.Ctx) {
 		// returns derived from clone()
 		okRet := true
 		for _, r := range eng.Returns(fn) {
-			sl := eng.Slice(r.Results[0], nil)
+			// the clone may be taken by a small helper of the package that returns it (e.withOptions(func…))
+			var cl []*ssa.Function
+			for _, g := range eng.Cluster(fn, 2) {
+				if g != clone {
+					cl = append(cl, g)
+				}
+			}
+			sl := eng.SliceInter(r.Results[0], nil, cl)
 			fromClone := false
 			for v := range sl {
 				if call, ok := v.(*ssa.Call); ok && call.Call.StaticCallee() == clone {
@@ -104,7 +111,7 @@ func ruleTerminalClose(c *eng.Ctx) {
 		}
 		var calls []ssa.CallInstruction
 		for _, ci := range eng.Calls(fn, false, func(string, ssa.CallInstruction) bool { return true }) {
-			if ci.Common().StaticCallee() == ensure {
+			if opensReader(ci.Common().StaticCallee(), ensure, closeFn, 0) {
 				calls = append(calls, ci)
 			}
 		}
@@ -129,14 +136,26 @@ func ruleTerminalClose(c *eng.Ctx) {
 			// success edge: the false edge of `err != nil` on the call's result
 			blk := ci.Block()
 			var succ *ssa.BasicBlock
-			if ifi, ok := blk.Instrs[len(blk.Instrs)-1].(*ssa.If); ok {
+			// the error result: the call's value, or the last component of a helper's tuple
+			var errVal ssa.Value = ci.Value()
+			if cv := ci.Value(); cv != nil {
+				if tup, ok := cv.Type().(*types.Tuple); ok {
+					errVal = nil
+					for _, r := range *cv.Referrers() {
+						if ex, ok := r.(*ssa.Extract); ok && ex.Index == tup.Len()-1 {
+							errVal = ex
+						}
+					}
+				}
+			}
+			if ifi, ok := blk.Instrs[len(blk.Instrs)-1].(*ssa.If); ok && errVal != nil {
 				if f, ok := eng.EdgeFact(eng.Edge{From: blk, Succ: 1}); ok {
-					if op, x, y, ok := f.Cmp(); ok && op == token.EQL && (x == ci.Value() || y == ci.Value()) {
+					if op, x, y, ok := f.Cmp(); ok && op == token.EQL && (x == errVal || y == errVal) {
 						succ = blk.Succs[1]
 					}
 				}
 				if f, ok := eng.EdgeFact(eng.Edge{From: blk, Succ: 0}); ok && succ == nil {
-					if op, x, y, ok := f.Cmp(); ok && op == token.EQL && (x == ci.Value() || y == ci.Value()) {
+					if op, x, y, ok := f.Cmp(); ok && op == token.EQL && (x == errVal || y == errVal) {
 						succ = blk.Succs[0]
 					}
 				}
@@ -162,6 +181,36 @@ func ruleTerminalClose(c *eng.Ctx) {
 			c.Ok(R, name, fn.Pos(), "defer e.Close() covers every exit after ensureReader succeeded")
 		}
 	}
+}
+
+// opensReader reports whether f is ensureReader or an unexported helper of the package that opens the reader through
+// it, reports failure in a trailing error result and leaves closing to its caller (no defer e.Close() of its own).
+func opensReader(f, ensure, closeFn *ssa.Function, depth int) bool {
+	if f == nil {
+		return false
+	}
+	if f == ensure {
+		return true
+	}
+	if depth >= 2 || f.Blocks == nil || isExported(f.Name()) || f.Pkg != ensure.Pkg {
+		return false
+	}
+	res := f.Signature.Results()
+	if res.Len() == 0 || !types.Identical(res.At(res.Len()-1).Type(), types.Universe.Lookup("error").Type()) {
+		return false
+	}
+	opens := false
+	for _, b := range f.Blocks {
+		for _, in := range b.Instrs {
+			if d, ok := in.(*ssa.Defer); ok && d.Call.StaticCallee() == closeFn {
+				return false
+			}
+			if ci, ok := in.(ssa.CallInstruction); ok && opensReader(ci.Common().StaticCallee(), ensure, closeFn, depth+1) {
+				opens = true
+			}
+		}
+	}
+	return opens
 }
 
 // R10.5
